@@ -62,6 +62,7 @@ CATALOG = {
 M_CATALOG = {
     "C04": [{"engine": "M", "name": "m-c04-dispatch", "functions": ["src/main.rs::main (MIR CFG: dispatch on Context.check_mode)"]},
             {"engine": "M", "name": "m-c04-no-mutating-calls", "functions": ["call graph of every function of the crate (MIR dump)"]}],
+    "C16": [{"engine": "M", "name": "m-c16-defaults", "functions": ["src/config/context.rs::{default_use_cache, default_rust_structured, default_rust_extensions} (MIR) and the serde attributes of Config/RustConfig/Cache"]}],
     "C18": [{"engine": "M", "name": "m-c18-signals", "functions": ["src/main.rs::main (MIR: arguments of signal_hook::flag::register)"]},
             {"engine": "M", "name": "m-c18-only-flag-handlers", "functions": ["src/main.rs::main (MIR: every call into signal_hook)"]}],
 }
@@ -147,6 +148,14 @@ def absorb(out, prop, ob, rec):
             out.violation("conformance-linecol", "reported line/column differ from the line/column of the insertion offset",
                           {"engine": "native", "input": text, "structured": structured, "mismatch": lc,
                            "note": "found by running the real find() on the validation corpus (a conformance run, not a solver verdict)"})
+    if val and val.get("panics"):
+        if prop == "C17":
+            for text, structured, msg in val["panics"][:3]:
+                out.violation("conformance-panic", "the real find() panicked",
+                              {"engine": "native", "input": text, "structured": structured, "panic": msg,
+                               "note": "found by running the real find() on the validation corpus (a conformance run, not a solver verdict)"})
+        else:
+            out.inconclusive_because(name, "the real find() panics on a validation input: %r" % (val["panics"][0],))
     if val and val.get("diffs"):
         out.inconclusive_because(name, "encoder disagrees with the real find() on %d validation input(s), e.g. %r" % (
             len(val["diffs"]), val["diffs"][0]))
